@@ -115,40 +115,62 @@ func (e *Env) scanCheck(l klevdb.Log, tag, what string) {
 
 func (e *Env) observeWith(l klevdb.Log, dir string, t obsTags, what string) {
 	m := e.M
-	if t.next != "" {
-		next, err := l.NextOffset()
-		if err != nil || next != m.Next {
-			e.failf(t.next, "%s: NextOffset=%d,%v want %d", what, next, err, m.Next)
-		}
+	parts := []func(){
+		func() {
+			if t.next != "" {
+				next, err := l.NextOffset()
+				if err != nil || next != m.Next {
+					e.failf(t.next, "%s: NextOffset=%d,%v want %d", what, next, err, m.Next)
+				}
+			}
+		},
+		func() {
+			if t.scan != "" {
+				e.scanCheck(l, t.scan, what)
+				e.St.Inc("scans")
+			}
+		},
+		func() {
+			if t.consume != "" {
+				e.consumeSweep(l, t.consume, what)
+			}
+		},
+		func() {
+			if t.get != "" {
+				e.getSweep(l, t.get, what)
+			}
+		},
+		func() {
+			if t.key != "" {
+				e.keySweep(l, t.key, what)
+			}
+		},
+		func() {
+			if t.time != "" {
+				e.timeSweep(l, t.time, what)
+			}
+		},
+		func() {
+			if t.stat != "" {
+				st, err := l.Stat()
+				if err != nil {
+					e.failf(t.stat, "%s: Stat failed: %v", what, err)
+				}
+				if st.Messages != len(m.Live) {
+					e.failf(t.stat, "%s: Stat.Messages=%d, live messages %d", what, st.Messages, len(m.Live))
+				}
+				if dir != "" {
+					e.checkStat(t.stat, st, dir, what+" Stat")
+				}
+				e.St.Inc("stats")
+			}
+		},
 	}
-	if t.scan != "" {
-		e.scanCheck(l, t.scan, what)
-		e.St.Inc("scans")
-	}
-	if t.consume != "" {
-		e.consumeSweep(l, t.consume, what)
-	}
-	if t.get != "" {
-		e.getSweep(l, t.get, what)
-	}
-	if t.key != "" {
-		e.keySweep(l, t.key, what)
-	}
-	if t.time != "" {
-		e.timeSweep(l, t.time, what)
-	}
-	if t.stat != "" {
-		st, err := l.Stat()
-		if err != nil {
-			e.failf(t.stat, "%s: Stat failed: %v", what, err)
-		}
-		if st.Messages != len(m.Live) {
-			e.failf(t.stat, "%s: Stat.Messages=%d, live messages %d", what, st.Messages, len(m.Live))
-		}
-		if dir != "" {
-			e.checkStat(t.stat, st, dir, what+" Stat")
-		}
-		e.St.Inc("stats")
+	// the first call on a fresh or lazy handle matters (it is the one that loads what is not loaded yet):
+	// rotate which part of the observation goes first
+	r := e.Step % len(parts)
+	for i := range parts {
+		parts[(i+r)%len(parts)]()
 	}
 }
 
